@@ -38,3 +38,6 @@ def run(ctx):
     real_binary(ctx)
     if not ctx.replay: termination_motifs(ctx)
     engcommon.run_engine_property(ctx, 'C06', plan_accept=600, oracles=[('limits', lambda h, st, b, prev: ec.oracle_c06(h, st, b))], faults=0.3, feat=dict(pools=0.8, dyndep=0.35))
+    # the MAKEFLAGS parser that decides which jobserver ninja joins (coq/Misc/MakeflagsDefs.v, Properties_C06makeflags.v) against the real one
+    import miscmodel
+    miscmodel.hook(ctx)
